@@ -810,6 +810,7 @@ pub fn account(acc: &mut Acc, s: &dyn Subject, case: &Case, run: &Run) {
 }
 
 pub fn note_case(acc: &mut Acc, s: &dyn Subject, case: &Case) {
+    monitor::watch::set_context(|| format!("subject {} payload {}", s.name(), case.payload.show().chars().take(3000).collect::<String>()));
     acc.note("subjects", s.name());
     for f in &case.faults {
         acc.count(&format!("faults.{f}"));
